@@ -58,3 +58,37 @@ class TcUnit:
             gear.dtr0 = v % 256
             return v // 256
         return None
+
+
+# IEC 62386-209 Table 11 "QUERY COLOUR VALUE": DTR0 selector numbers, by the names the library's enumeration uses
+def _sel():
+    t = {"XCoordinate": 0, "YCoordinate": 1, "ColourTemperatureTC": 2}
+    for n in range(6):
+        t[f"PrimaryNDimLevel{n}"] = 3 + n
+    for k, nm in enumerate(["Red", "Green", "Blue", "White", "Amber", "Freecolour"]):
+        t[f"{nm}DimLevel"] = 9 + k
+    t["RGBWAFControl"] = 15
+    for n in range(6):
+        t[f"XCoordinatePrimaryN{n}"] = 64 + 3 * n
+        t[f"YCoordinatePrimaryN{n}"] = 65 + 3 * n
+        t[f"TYPrimaryN{n}"] = 66 + 3 * n
+    t["NumberOfPrimaries"] = 82
+    t.update(ColourTemperatureTcCoolest=128, ColourTemperatureTcPhysicalCoolest=129, ColourTemperatureTcWarmest=130,
+             ColourTemperatureTcPhysicalWarmest=131)
+    t.update(TemporaryXCoordinate=192, TemporaryYCoordinate=193, TemporaryColourTemperature=194)
+    for n in range(6):
+        t[f"TemporaryPrimaryNDimLevel{n}"] = 195 + n
+    for k, nm in enumerate(["Red", "Green", "Blue", "White", "Amber", "Freecolour"]):
+        t[f"Temporary{nm}DimLevel"] = 201 + k
+    t.update(TemporaryRgbwafControl=207, TemporaryColourType=208)
+    t.update(ReportXCoordinate=224, ReportYCoordinate=225, ReportColourTemperatureTc=226)
+    for n in range(6):
+        t[f"ReportPrimaryNDimLevel{n}"] = 227 + n
+    for k, nm in enumerate(["Red", "Green", "Blue", "White", "Amber", "Freecolour"]):
+        t[f"Report{nm}DimLevel"] = 233 + k
+    t.update(ReportRgbwafControl=239, ReportColourType=240)
+    return t
+
+
+SELECTORS = _sel()
+LIMIT_SELECTORS = {"TcCoolest": 0, "TcWarmest": 1, "TcPhysicalCoolest": 2, "TcPhysicalWarmest": 3}   # 209 Table 10 (DTR2)
